@@ -84,12 +84,27 @@ def run_shard(spec, acc):
         except Exception as e:  # noqa: BLE001
             acc.violation("filter-constructor-raised", f"{kwargs}: {type(e).__name__}: {e}", {"config": repr(kwargs)})
             continue
+        # a second decoder built from the very same argument objects (e.g. after a reconnect) must behave the same
+        import copy as _copy
+        snapshot = _copy.deepcopy(kwargs)
+        try:
+            filt2 = NMEA2000Decoder(**kwargs)
+        except Exception as e:  # noqa: BLE001
+            acc.violation("filter-constructor-raised", f"{kwargs} (second construction): {type(e).__name__}: {e}", {"config": repr(kwargs)})
+            continue
+        if kwargs != snapshot:
+            acc.violation("constructor-mutates-caller-list", f"filter list changed from {snapshot} to {kwargs} by constructing decoders", {"config": repr(snapshot)})
         plain = NMEA2000Decoder()
         kept = removed = 0
         bad = None
         for pos, ev in enumerate(events):
             ku, u = hist.safe_feed(plain, ev)
             kf, f = hist.safe_feed(filt, ev)
+            kf2, f2 = hist.safe_feed(filt2, ev)
+            if (kf2, project.msg_proj(f2) if kf2 == "ok" else f2) != (kf, project.msg_proj(f) if kf == "ok" else f):
+                acc.violation("second-decoder-from-same-arguments-differs", f"config {snapshot}: a second decoder constructed from the same argument objects returns something else at position {pos}",
+                              {"config": repr(snapshot), "position": pos})
+                break
             acc.count("positions_compared")
             if ku == "exc" or kf == "exc":
                 if ku != kf and not (ku == "exc" and f is None):
